@@ -31,11 +31,12 @@ ASSUMPTIONS = [
     'an over-width line is accepted when, after its fixed prefix (indent/operation/separator, register name, list bullet, continuation dot), it holds at most one '
     'word, when it is a rendered table row, when it is a #LIST/#TABLE row written under <nowrap>, or when the operation field leaves less than '
     'comment-width-min for the comment and the comment text is no longer than comment-width-min',
-    'for control files, braces in instruction comments are limited to shapes the control-file syntax can carry unambiguously (see BRACES_CTL); every shape is used on the skool-file side',
+    'the skool file given to skool2asm/skool2html encodes braces in instruction comments by the documented rules (enough adjacent opening braces that the '
+    'comment does not end before its last instruction; a space between our braces and a brace of the text)',
     'ASM templates, table borders and the list bullet are the defaults',
 ]
-MIN_NONTRIVIAL = {'quick': 600, 'thorough': 15000}
-N_CASES = {'quick': 3200, 'thorough': 110000}
+MIN_NONTRIVIAL = {'quick': 1500, 'thorough': 30000}
+N_CASES = {'quick': 8000, 'thorough': 160000}
 
 F_NOWARN = 'C18-asm-comment-overwidth-no-warning'
 
@@ -87,8 +88,32 @@ def sna_argv(doc, s):
 
 # ------------------------------------------------------------------ legs
 
-def classify(problem, leg):
+F_DIP = 'C18-sna2skool-brace-balance-dips'
+F_LISTW = 'C18-asm-list-in-narrow-comment-crash'
+
+def brace_dip(text):
+    """True when, reading left to right, closing braces outnumber opening braces by more than they do over the whole text
+    (a closing brace comes before a later opening brace)."""
+    bal = low = 0
+    for ch in text:
+        if ch == '{':
+            bal += 1
+        elif ch == '}':
+            bal -= 1
+            low = min(low, bal)
+    return low < min(0, bal)
+
+def classify(problem, leg, doc=None):
     """finding id for a problem whose mechanism is a recorded defect of the unchanged tree, else None"""
+    if leg == 'ctl' and problem['code'] == 'tokens' and problem['place'].endswith('instruction comment') and doc is not None:
+        # mechanism: sna2skool sizes the opening/closing braces of a multi-instruction comment from the total brace balance only; when the
+        # running balance dips lower than that (a '}' before a later '{'), the braces close on an earlier line and the comment is cut short
+        import re
+        m = re.match(r'entry (\d+) \(\d+\) group (\d+) ', problem['place'])
+        if m:
+            g = doc['entries'][int(m.group(1))]['groups'][int(m.group(2))]
+            if len(g['instrs']) > 1 and brace_dip(g['comment']):
+                return F_DIP
     if problem['code'] == 'nowarn-c' and leg in ('asm', 'chain'):
         # mechanism: a title/description/register/mid-block/end comment line (not an instruction line) is longer than the line width
         # because one word (or a table) cannot be broken, and skool2asm says nothing (it only warns for instruction lines and tables)
@@ -98,7 +123,7 @@ def classify(problem, leg):
 def report(shard, leg, problems, rp, head):
     by = {}
     for p in problems:
-        by.setdefault((p['code'], classify(p, leg)), []).append(p)
+        by.setdefault((p['code'], classify(p, leg, rp.get('doc'))), []).append(p)
     for (code, fid), ps in by.items():
         what = '%s [%s] %s: %s%s' % (head, leg, ps[0]['place'], ps[0]['detail'], ' (+%d more of this kind in the case)' % (len(ps) - 1) if len(ps) > 1 else '')
         shard.inc('problems:%s:%s' % (leg, code), len(ps))
@@ -114,7 +139,12 @@ def leg_asm(shard, doc, skool, o, rp, leg='asm', fname='in.skool'):
     r = harness.run_tool('skool2asm', asm_argv(o, fname))
     shard.inc('events:skool2asm_runs')
     if not r.ok:
-        shard.violation('skool2asm failed [%s]: %s\n%s' % (leg, r.describe(), (r.tb or '')[-1500:]), dict(rp, leg=leg, asm_opts=o))
+        fid = None
+        if r.exc and 'invalid width' in r.exc and 'wrap(item, width - len(prefix))' in (r.tb or '') and o.get('comment-width-min', 10) <= 2:
+            # mechanism: a #LIST item in an instruction comment whose column (forced down to comment-width-min <= 2 by a long operation) is not
+            # wider than the bullet prefix: textwrap is called with width <= 0 and the ValueError escapes
+            fid = F_LISTW
+        shard.violation('skool2asm failed [%s]: %s\n%s' % (leg, r.describe(), (r.tb or '')[-1500:]), dict(rp, leg=leg, asm_opts=o), fid)
         return
     min_cw = o.get('comment-width-min', 10)
     problems, stats = R.check_asm(doc, r.out, r.err, o['line-width'], min_cw)
@@ -173,19 +203,10 @@ def classify_crash(r):
 
 # ------------------------------------------------------------------ cases
 
-BRACES_CTL = 1      # brace shapes used on the control-file side: interior, running balance never negative, not at either end
-
 def make_case(rng):
     s = make_settings(rng)
-    r = rng.random()
-    # three populations: skool-side documents with every brace shape; documents for all legs with the brace shapes a control file can carry;
-    # brace-free documents
-    if r < 0.35:
-        level, legs = 2, ('asm', 'html')
-    elif r < 0.8:
-        level, legs = BRACES_CTL, ('asm', 'html', 'ctl')
-    else:
-        level, legs = 0, ('asm', 'html', 'ctl')
+    level = 0 if rng.random() < 0.2 else 2
+    legs = ('asm', 'html', 'ctl')
     doc = G.gen_doc(rng, s['W'], brace_level=level, blocks=rng.random() < 0.8)
     return doc, s, legs, level
 
